@@ -1,9 +1,9 @@
 (* C05 -- Reverse complement obeys IUPAC base pairing and is an involution.
    Only statements here; proofs are in proof/C05_Lemmas.v. *)
-From Coq Require Import List Bool.
+From Coq Require Import List Bool NArith.
 From Coq.Strings Require Import Byte.
 Import ListNotations.
-From SV Require Import Text G_codes C05_Model C05_Lemmas.
+From SV Require Import Text G_codes C05_Model C05_Lemmas C05_More.
 
 (* complement of a code denotes the Watson-Crick complements of its bases; gaps are fixed *)
 Theorem C05_complement_table_sound : forall c, In c alphabet ->
@@ -56,6 +56,98 @@ Print Assumptions C05_basket_rc.
 Theorem C05_lin_eval : forall op s, run_C05_lin op s = run_C05 op s.
 Proof. exact run_C05_lin_eq. Qed.
 Print Assumptions C05_lin_eval.
+
+(* ---- round 7: every byte string, exact regions ---- *)
+(* the translation table on all 256 code points: identity outside the 17 symbols (U, lower case, amino acids, anything), an involution *)
+Theorem C05_table_every_byte : forall c,
+  (in_alpha c = false -> trans1 c = c) /\ trans1 (trans1 c) = c /\ byte_eqb cU (trans1 c) = byte_eqb cU c.
+Proof. exact (fun c => conj (trans1_outside c) (conj (trans1_invol c) (trans1_U_iff c))). Qed.
+Print Assumptions C05_table_every_byte.
+
+(* complement of ANY string is position-wise: one symbol map chosen by the single flag 'U' in data; lengths equal *)
+Theorem C05_complement_every_string : forall s,
+  complement s = map (cc (has cU s)) s /\ length (complement s) = length s /\
+  (forall i, nth_error (complement s) i = option_map (cc (has cU s)) (nth_error s i)).
+Proof. exact complement_every_string. Qed.
+Print Assumptions C05_complement_every_string.
+
+(* the symbol map of the U branch, for every byte *)
+Theorem C05_rna_symbol_map : forall c,
+  cc true c = (if byte_eqb c cU || byte_eqb c cT then cA else if byte_eqb c cA then cU else trans1 c) /\ cc false c = trans1 c.
+Proof. exact (fun c => conj (cc_true_spec c) eq_refl). Qed.
+Print Assumptions C05_rna_symbol_map.
+
+(* set-level IUPAC semantics of the U branch on the RNA alphabet *)
+Theorem C05_complement_table_sound_rna : forall c, In c alphabet_rna ->
+  set_eqb (iupac_rna (cc true c)) (map wc_rna (iupac_rna c)) = true /\ In (cc true c) alphabet_rna /\
+  (is_gapsym c = true -> cc true c = c).
+Proof. exact complement_table_sound_rna. Qed.
+Print Assumptions C05_complement_table_sound_rna.
+
+(* complement twice / rc twice: the exact result, and exactly where it is the identity (any bytes) *)
+Theorem C05_twice : forall s,
+  complement (complement s) = (if has cU s then (if has cA s then t2u s else u2t s) else s) /\
+  rc (rc s) = complement (complement s).
+Proof. exact (fun s => conj (complement_twice s) (rc_twice s)). Qed.
+Print Assumptions C05_twice.
+
+Theorem C05_involution_iff : forall s,
+  (complement (complement s) = s <-> inv_ok s = true) /\ (rc (rc s) = s <-> inv_ok s = true).
+Proof. exact (fun s => conj (complement_involutive_iff s) (rc_involutive_iff s)). Qed.
+Print Assumptions C05_involution_iff.
+
+(* in particular every string without U, whatever its bytes *)
+Theorem C05_involutive_no_U : forall s, has cU s = false -> complement (complement s) = s /\ rc (rc s) = s.
+Proof. exact involutive_no_U. Qed.
+Print Assumptions C05_involutive_no_U.
+
+(* RNA = DNA conjugated by the letter substitutions, which are mutually inverse between T-free and U-free strings *)
+Theorem C05_rna_square : forall s, has cU s = true ->
+  complement s = t2u (complement (u2t s)) /\ has cT (complement s) = false.
+Proof. exact rna_square. Qed.
+Print Assumptions C05_rna_square.
+
+Theorem C05_tu_bijection : forall s, (has cT s = false -> t2u (u2t s) = s) /\ (has cU s = false -> u2t (t2u s) = s).
+Proof. exact (fun s => conj (t2u_u2t s) (u2t_t2u_id s)). Qed.
+Print Assumptions C05_tu_bijection.
+
+(* the other square commutes exactly when the RNA spelling is recognisable: it contains a U, or nothing turns into one *)
+Theorem C05_t2u_square_iff : forall d, has cU d = false ->
+  (complement (t2u d) = t2u (complement d) <-> has cT d = true \/ has cA d = false).
+Proof. exact t2u_square_iff. Qed.
+Print Assumptions C05_t2u_square_iff.
+
+(* strings with both T and U: every T is read as U *)
+Theorem C05_mixed_TU : forall s, has cU s = true -> complement s = complement (t2u s) /\ rc s = rc (t2u s).
+Proof. exact mixed_TU. Qed.
+Print Assumptions C05_mixed_TU.
+
+(* constructor: upper-casing is idempotent, fixes the alphabet and undoes lower-casing of it *)
+Theorem C05_constructor : forall s,
+  construct (construct s) = construct s /\
+  (forallb in_alpha_rna s = true -> construct s = s /\ construct (py_lower s) = s) /\
+  (forallb (fun c => N.ltb (nb c) 128) s = true -> length (construct s) = length s).
+Proof. exact (fun s => conj (construct_idem s) (conj (construct_alpha s) (construct_length_ascii s))). Qed.
+Print Assumptions C05_constructor.
+
+(* the derivation of seq.py:21-24, run on the regenerated CODES and COMPLEMENT, yields the regenerated COMPLEMENT_ALL and COMPLEMENT_TRANS *)
+Theorem C05_derived_tables : exists d, derive_all CODES COMPLEMENT = Some d /\
+  (forall c, lookupB c d = lookupB c COMPLEMENT_ALL) /\
+  (forall c, lookupN (Byte.to_N c) (derive_trans d) = lookupN (Byte.to_N c) COMPLEMENT_TRANS) /\
+  forallb (fun kv => N.ltb (fst kv) 256 && N.ltb (snd kv) 256) COMPLEMENT_TRANS = true.
+Proof. exact derived_tables. Qed.
+Print Assumptions C05_derived_tables.
+
+(* CODES is the IUPAC nucleotide code *)
+Theorem C05_codes_are_iupac : forallb codes_ok alphabet = true /\ length CODES = length alphabet.
+Proof. exact codes_are_iupac. Qed.
+Print Assumptions C05_codes_are_iupac.
+
+Example C05_witness_twice : inv_ok (bs "ACGU"%bs) = true /\ inv_ok (bs "UUU"%bs) = false /\ inv_ok (bs "ATU"%bs) = false /\
+  Bstr (complement (complement (bs "UUU"%bs))) = "TTT"%bs /\ Bstr (complement (bs "TU"%bs)) = "AA"%bs /\
+  Bstr (complement (bs "aXu-R"%bs)) = "aXu-Y"%bs /\ Bstr (complement (t2u (bs "AAA"%bs))) = "TTT"%bs /\
+  Bstr (t2u (complement (bs "AAA"%bs))) = "UUU"%bs /\ Bstr (construct (bs "acgu-n"%bs)) = "ACGU-N"%bs.
+Proof. exact witness_twice. Qed.
 
 (* non-vacuity: a string meeting the hypotheses, with ambiguity codes and gaps *)
 Example C05_witness : forallb in_alpha (bs "ACGTRYSWKMBDHVN.-"%bs) = true /\
